@@ -243,6 +243,9 @@ def run(tier, seed):
             sc_joint({"kind": "joint", "label": label, "specs": specs, "n": n, "seeds": n in (1, 1000), **seeds()}, rec)
         for v in range(4 if thorough else 1):
             sc_joint({"kind": "joint", "label": label + "~rand", "specs": _perturb(specs, rng), "n": 100000 if thorough else 20000, "seeds": False, **seeds()}, rec)
+    # a large ODD size (a draw done in parts must not lose the remainder): one cheap model in the quick tier
+    first = next(iter(MODELS))
+    sc_joint({"kind": "joint", "label": first, "specs": MODELS[first], "n": 526315, "seeds": False, **seeds()}, rec)
     if thorough:
         for label in ("3d(N,0,1)", "2d(N,0):EW>EW-chained"):
             sc_joint({"kind": "joint", "label": label, "specs": MODELS[label], "n": 1000000, "seeds": False, **seeds()}, rec)
